@@ -337,10 +337,10 @@ def _worker_programs(args):
   guards = collections.Counter()
   units, lines, srcs = [], [], []
   dis, samples = [], []
-  srcs = [gen.program() for _ in range(n)]
+  todo = [gen.program() for _ in range(n)]
   if seed == 0:
-    srcs = G.signature_matrix_programs() + srcs      # deterministic family, one worker runs it
-  for src in srcs:
+    todo = G.signature_matrix_programs() + todo      # deterministic family, one worker runs it
+  for src in todo:
     try:
       ret, text = io.generate_pyi(src, opts)
     except Exception as e:  # pylint: disable=broad-except
